@@ -15,6 +15,8 @@ package vrt
 import (
 	"fmt"
 	"reflect"
+
+	"github.com/alpacahq/marketstore/v4/verif/rt/vos"
 	"runtime"
 	"runtime/debug"
 	"sort"
@@ -47,6 +49,15 @@ func Until(t time.Time) time.Duration { return t.Sub(Now()) }
 
 // S is the current schedule controller (nil in passthrough mode).
 var S *Sched
+
+// Goroutines started in passthrough mode must never run vrt helpers while a controlled execution is
+// active (they would be mistaken for the running thread). They are counted, and so are the ones
+// currently parked in a native blocking operation; Run waits until every passthrough goroutine is
+// parked or gone before it switches to controlled mode.
+var nativeSpawned, nativeBlocked int32
+
+func nativeBlock()   { atomic.AddInt32(&nativeBlocked, 1) }
+func nativeUnblock() { atomic.AddInt32(&nativeBlocked, -1) }
 
 func Controlled() bool { return S != nil }
 
@@ -104,6 +115,7 @@ type Sched struct {
 
 	aborting  bool
 	Deadlock  bool
+	DeadInfo  string // what every unfinished thread was waiting for when the deadlock was detected
 	Livelock  bool
 	Diverged  string
 	Panics    []PanicObs
@@ -135,6 +147,9 @@ func Run(prefix []int, cfg func(*Sched), body func()) *Sched {
 	}
 	if S != nil {
 		panic("vrt.Run: nested")
+	}
+	for dl := time.Now().Add(5 * time.Second); atomic.LoadInt32(&nativeSpawned) != atomic.LoadInt32(&nativeBlocked) && time.Now().Before(dl); {
+		runtime.Gosched()
 	}
 	S = s
 	base := runtime.NumGoroutine()
@@ -225,10 +240,12 @@ func (s *Sched) switchAway(t *Thread) {
 		// nobody can run: if some thread is unfinished this is a deadlock unless main is among the
 		// finished (main finishing ends the execution anyway).
 		s.Deadlock = true
+		s.DeadInfo = s.describe()
 		s.finish()
 		return
 	}
 	s.cur = next
+	vos.Cur().SetThread(next.ID)
 	next.wake <- struct{}{}
 }
 
@@ -255,10 +272,12 @@ func Yield(op *Op) {
 	next := s.pick(t)
 	if next == nil {
 		s.Deadlock = true
+		s.DeadInfo = s.describe()
 		s.abortFrom(t)
 	}
 	if next != t {
 		s.cur = next
+		vos.Cur().SetThread(next.ID)
 		next.wake <- struct{}{}
 		<-t.wake
 		if s.aborting {
@@ -267,6 +286,21 @@ func Yield(op *Op) {
 		}
 	}
 	t.op = nil
+}
+
+func (s *Sched) describe() string {
+	var sb strings.Builder
+	for _, t := range s.Threads {
+		if t.done {
+			continue
+		}
+		d := "not started"
+		if t.op != nil {
+			d = t.op.Kind + " " + t.op.Desc
+		}
+		fmt.Fprintf(&sb, "T%d:%s waits for [%s]; ", t.ID, t.Name, d)
+	}
+	return sb.String()
 }
 
 // abortFrom ends the execution from inside thread t (never returns).
@@ -394,6 +428,28 @@ func (s *Sched) choiceWorthy(cur *Thread, opts []*Thread) bool {
 	return s.SharedObj(op.Kind, op.Obj, cur.Name)
 }
 
+// device operations are scheduling points in controlled mode
+func init() {
+	vos.PreOp = func(kind vos.OpKind, path string) {
+		if S == nil || S.aborting {
+			return
+		}
+		k := "dev-w"
+		if kind == 0 {
+			k = "dev-r"
+		}
+		Yield(&Op{Kind: k, Obj: path, Desc: kind.String() + " " + path})
+	}
+}
+
+// AllowTimer lets the ticker(s) of duration d fire n more times by themselves (when nothing else can run,
+// or earlier as a deviation chosen by the explorer).
+func AllowTimer(d time.Duration, n int) {
+	if S != nil {
+		S.TimerBudget[d] += n
+	}
+}
+
 // ---------------------------------------------------------------------------------------------
 // threads
 
@@ -401,7 +457,11 @@ func (s *Sched) choiceWorthy(cur *Thread, opts []*Thread) bool {
 func Go(name string, fn func()) {
 	s := S
 	if s == nil {
-		go fn()
+		atomic.AddInt32(&nativeSpawned, 1)
+		go func() {
+			defer atomic.AddInt32(&nativeSpawned, -1)
+			fn()
+		}()
 		return
 	}
 	if s.aborting {
@@ -542,7 +602,9 @@ func doSend(v reflect.Value, x reflect.Value) {
 
 func Send[T any](ch chan<- T, v T) {
 	if S == nil {
+		nativeBlock()
 		ch <- v
+		nativeUnblock()
 		return
 	}
 	if S.aborting {
@@ -565,7 +627,9 @@ func Recv[T any](ch <-chan T) T {
 
 func Recv2[T any](ch <-chan T) (T, bool) {
 	if S == nil {
+		nativeBlock()
 		v, ok := <-ch
+		nativeUnblock()
 		return v, ok
 	}
 	if S.aborting {
@@ -634,7 +698,9 @@ func Select(site string, dflt bool, cases ...Case) Sel {
 		if dflt {
 			rc = append(rc, reflect.SelectCase{Dir: reflect.SelectDefault})
 		}
+		nativeBlock()
 		i, v, ok := reflect.Select(rc)
+		nativeUnblock()
 		if dflt && i == len(cases) {
 			return Sel{I: -1}
 		}
